@@ -473,7 +473,7 @@ impl<'a> Iterator for TokenIterator<'a> {
 
 pub type Iter<'a> = Peekable<TokenIterator<'a>>;
 
-fn attr_from_name(name: &str) -> Option<&'static str> {
+pub(crate) fn attr_from_name(name: &str) -> Option<&'static str> {
     match name {
         "int" | "international" => Some("int"),
         "UKSJJ" => Some("UKSJJ"),
